@@ -126,7 +126,24 @@ enum IntersectionResult {
 fn non_empty_map_literals_intersection(
     pos: &[Atom],
     ctx: &mut SemTypeContext,
+    is_map: bool,
 ) -> Result<IntersectionResult> {
+    // a clause without positive atoms (what is left of `object` / `unknown` after a difference) stands for every
+    // object (every Map), not for the closed `{}` that the accumulator below would be read as
+    if pos.is_empty() {
+        let key = if is_map {
+            SemTypeContext::unknown()
+        } else {
+            SemTypeContext::string()
+        };
+        return Ok(IntersectionResult::Atomic(Rc::new(MappingAtomicType {
+            vs: Default::default(),
+            indexed_properties: Some(IndexedPropertiesAtomic {
+                key: Rc::new(key),
+                value: Rc::new(SemTypeContext::unknown()),
+            }),
+        })));
+    }
     let mut acc = Rc::new(MappingAtomicType::new());
 
     for atom in pos {
@@ -417,7 +434,7 @@ pub fn mapping_is_empty_impl(
 ) -> Result<IsEmptyStatus> {
     let mut acc = vec![];
     for it in dnf.as_ref() {
-        match non_empty_map_literals_intersection(&it.positive, ctx)? {
+        match non_empty_map_literals_intersection(&it.positive, ctx, is_map)? {
             IntersectionResult::Empty => acc.push(true),
             IntersectionResult::Atomic(a) => {
                 let res = mapping_atomic_type_is_empty(a, &it.negative, ctx, is_map)?;
